@@ -116,7 +116,8 @@ impl Mempool {
             public_key = wallet.public_key;
             transaction.generate(&public_key, 0, 0);
 
-            tx_valid = transaction.validate(&blockchain.utxoset, blockchain, true);
+            tx_valid = !transaction.is_producer_only(blockchain.blocks.is_empty())
+                && transaction.validate(&blockchain.utxoset, blockchain, true);
         }
 
         // validate
